@@ -1203,6 +1203,21 @@ impl Check for C42 {
                 large_schema(ctx, rep, cfg, order);
             }
         }
+        if let Some(path) = ctx.opt("cases") {
+            // development aid: `--opt cases=<file>` judges an explicit JSON array of run keys (split by index)
+            let list: Vec<Value> = serde_json::from_slice(&std::fs::read(path).unwrap_or_default()).unwrap_or_default();
+            let mut eng = Engine::new(ctx);
+            for (i, c) in list.iter().enumerate() {
+                if !ctx.mine(i as u64) {
+                    continue;
+                }
+                if let Some(key) = RunKey::from_json(c) {
+                    check_case(&mut eng, rep, &key, "cases", true);
+                    rep.case(vcore::util::hash_of(&key), true);
+                }
+            }
+            return;
+        }
         let mut w = Walker { eng: Engine::new(ctx), rep, case_idx: 0, capped: false };
         for pass in &ps {
             // development aid: `--opt only=<pass name>` restricts the run to one pass
